@@ -786,10 +786,12 @@ class C06InExplainerOracle(BaseOracle):
                     return self.v("outside-subset-changed", "feature %r outside the subset %r: instance %r, model input %r"
                                   % (f, S, x[f], inp[f]), cls=name)
             if kind == "default":
+                from ..world import default_value
                 for j, f in enumerate(w_names(self.world)):
-                    if any(f == s_ for s_ in S) and inp[f] != -(j + 1):
+                    dv = default_value(self.world, j)
+                    if any(f == s_ for s_ in S) and not (inp[f] == dv and type(inp[f]) is type(dv)):
                         return self.v("not-the-default", "feature %r: model input %r, configured default %r"
-                                      % (f, inp[f], -(j + 1)), cls=name)
+                                      % (f, inp[f], dv), cls=name)
             elif c["icfg"].get("strategy", "joint") == "joint":
                 if S and not any(all(f in r and inp[f] == r[f] for f in S) for r in rows):
                     return self.v("joint-not-one-row", "imputed values %r are not those of one stored row (rows %r)"
